@@ -8,9 +8,9 @@ package main
 // all its arguments.
 
 import (
-	"strings"
 	"go/token"
 	"go/types"
+	"strings"
 
 	"golang.org/x/tools/go/ssa"
 )
@@ -175,6 +175,11 @@ func (s *slicer) derives(v ssa.Value, stack []*ssa.Call, field int) bool {
 		return s.bufferWriters(x, stack)
 	}
 	if s.copyOnly {
+		if bo, ok := v.(*ssa.BinOp); ok && s.structural && bo.Op == token.ADD {
+			if bt, ok := bo.Type().Underlying().(*types.Basic); ok && bt.Kind() == types.String {
+				return s.derives(bo.X, stack, -1) || s.derives(bo.Y, stack, -1) // string concatenation
+			}
+		}
 		return false
 	}
 	if ins, ok := v.(ssa.Instruction); ok {
@@ -227,8 +232,8 @@ func (s *slicer) fromAlloc(a *ssa.Alloc, stack []*ssa.Call, field int, at ssa.In
 			}
 		}
 	}
-	if field < 0 && !s.copyOnly {
-		// a byte array / buffer filled through calls
+	if field < 0 && (!s.copyOnly || s.structural) {
+		// a byte array / buffer filled through calls; the argument array of a variadic call
 		return s.bufferWriters(a, stack)
 	}
 	return false
@@ -296,7 +301,7 @@ func (s *slicer) fromCall(c *ssa.Call, res int, stack []*ssa.Call, field int) bo
 			return false
 		}
 		_, nm := calleeName(c.Common())
-		if !(strings.Contains(nm, "Marshal") || nm == "append") {
+		if !(strings.Contains(nm, "Marshal") || nm == "append" || strings.HasSuffix(nm, "Sprintf") || strings.HasSuffix(nm, "Join") || strings.HasSuffix(nm, "Sprint")) {
 			return false
 		}
 		for _, a := range c.Common().Args {
